@@ -162,12 +162,7 @@ func C13(p *ir.Program, r *report.R) {
 
 	// ---- (ii) recovery matches order ----------------------------------------------
 	{
-		nn := p.Func("node", "NewNode")
-		calls := ir.Calls(nn, "consensus.BlockExecutor.ApplyBlock")
-		if c.MustFind("K5", "node.NewNode/rebuild", nn, len(calls), "ApplyBlock call") {
-			c.Guards("node.NewNode", "rebuild status", calls[0], G{"status-lags-app-by-one", ir.EqPat("(consensus.LoadStatus(*).LastBlockHeight + 1)", "*.Height(*)") + " || " + ir.EqPat("(*.LastBlockHeight + 1)", "*LinkApplication.Height(*)")})
-			r.Check("K5", "node.NewNode/rebuild/block", p.InstrPos(calls[0]), strings.Contains(Arg(calls[0], 3), "LoadBlock(") && strings.Contains(Arg(calls[0], 2), "LoadBlockMeta("), "re-applies the block stored at the application height: "+short(Arg(calls[0], 3), 100))
-		}
+		rebuildStatusRules(c)
 		kv := p.Func("state", "NewKeyValueDBWithCache")
 		d := ir.Domain{Axes: []ir.Axis{
 			ir.BoolAxis("isTrie", "isTrie"),
@@ -367,3 +362,51 @@ func C13(p *ir.Program, r *report.R) {
 }
 
 var _ = report.Discharged
+
+
+// rebuildStatusRules: after a crash between CommitBlock and SaveStatus the node re-applies the block
+// stored at the application height — that block, its meta, and the validators the application computed
+// FOR THAT HEIGHT (an older set makes every later block fail the validators-hash comparison).
+// Shared by C13 (recovery) and C02 (the status validateBlock compares against).
+func rebuildStatusRules(c C) {
+	p, r := c.P, c.R
+	nn := p.Func("node", "NewNode")
+	calls := ir.Calls(nn, "consensus.BlockExecutor.ApplyBlock")
+	if c.MustFind("K5", "node.NewNode/rebuild", nn, len(calls), "ApplyBlock call") {
+		c.Guards("node.NewNode", "rebuild status", calls[0], G{"status-lags-app-by-one", ir.EqPat("(consensus.LoadStatus(*).LastBlockHeight + 1)", "*.Height(*)") + " || " + ir.EqPat("(*.LastBlockHeight + 1)", "*LinkApplication.Height(*)")})
+		r.Check("K5", "node.NewNode/rebuild/block", p.InstrPos(calls[0]), strings.Contains(Arg(calls[0], 3), "LoadBlock(") && strings.Contains(Arg(calls[0], 2), "LoadBlockMeta("), "re-applies the block stored at the application height: "+short(Arg(calls[0], 3), 100))
+		// same height for block, meta and validators
+		blk, vals := Arg(calls[0], 3), Arg(calls[0], 4)
+		hOf := func(s, fn string) string {
+			i := strings.Index(s, fn+"(")
+			if i < 0 {
+				return "?" + fn
+			}
+			rest := s[i+len(fn)+1:]
+			// second argument up to the matching parenthesis
+			depth, start := 0, -1
+			for j, ch := range rest {
+				switch ch {
+				case '(':
+					depth++
+				case ')':
+					if depth == 0 {
+						if start >= 0 {
+							return rest[start:j]
+						}
+						return rest[:j]
+					}
+					depth--
+				case ',':
+					if depth == 0 && start < 0 {
+						start = j + 1
+					}
+				}
+			}
+			return "?"
+		}
+		hb, hv := hOf(blk, "LoadBlock"), hOf(vals, "GetValidators")
+		r.Check("K5", "node.NewNode/rebuild/validators-of-that-height", p.InstrPos(calls[0]), hb == hv && strings.Contains(hv, "Height("),
+			"the validators handed to ApplyBlock are GetValidators(h) for the same application height h as the block: block@"+short(hb, 80)+" validators@"+short(hv, 80))
+	}
+}
